@@ -31,6 +31,7 @@ type Config struct {
 	MapMode  int  // see simrt.Run.MapMode; -1 = draw from tape
 	KeepLog  bool // retain the full event log
 	Drain    bool // keep scheduling after the root returned, until quiescence
+	RandKey  *uint64 // non-nil: keyed pseudo-random stimulus (see simrt.Run.RandKeyed)
 }
 
 type Result struct {
@@ -81,6 +82,9 @@ func Run(t *testing.T, tapes *simrt.Tapes, cfg Config, root func(r *simrt.Run)) 
 		synctest.Test(t, func(t *testing.T) {
 			r = &simrt.Run{Tapes: tapes, KeepLog: cfg.KeepLog,
 				NewChan: func() chan struct{} { return make(chan struct{}) }}
+			if cfg.RandKey != nil {
+				r.RandKeyed, r.RandKey = true, *cfg.RandKey
+			}
 			simrt.ResetClock()
 			simrt.Start(r)
 			defer simrt.Stop(r)
